@@ -38,6 +38,9 @@ func (c11) Gen(seed int64, tier string, avoid []string) *Plan {
 	if chance(r, 150) {
 		cfg.RTCPWErrAt = 1 + r.Intn(6)
 	}
+	if chance(r, 200) {
+		cfg.LibStallUs = int64(pick(r, 300, 3000, -2, -2)) // -2: the transport blocks what the library writes until the connection is closed
+	}
 	genRigTraffic(r, &cfg, p, tier, rigTrafficOpts{nackBias: chance(r, 400), observers: chance(r, 300)})
 	ops := opsOf[RigOp](p)
 	var end int64
@@ -175,6 +178,10 @@ func c11Oracle(e *Env, rg *Rig) {
 	if after > 0 {
 		e.Probe("traffic_after_close")
 	}
+	// (3b) Bind/Unbind return although the transport is blocked
+	for _, what := range rg.SlowCalls {
+		e.Violatef("oracle", "c11:blocked-by-transport:"+what, "%s did not return while the next RTP writer stayed blocked on a packet the library itself was writing (chain %v): with a transport that stays blocked until the connection is closed it never returns", what, cfg.Kinds)
+	}
 	// (4) after Unbind returned no later-generated feedback names the SSRC
 	names := func(pkts []rtcp.Packet, ssrc uint32) bool {
 		for _, p := range pkts {
@@ -193,7 +200,7 @@ func c11Oracle(e *Env, rg *Rig) {
 		}
 		return false
 	}
-	check := func(ssrc uint32, unbound, rebound int, what string) {
+	check := func(ssrc uint32, unbound, rebound int, unboundAt time.Duration, what string) {
 		if unbound == 0 {
 			return
 		}
@@ -205,6 +212,11 @@ func c11Oracle(e *Env, rg *Rig) {
 			started := o.iter
 			if started <= unbound {
 				continue // the iteration that produced it began before Unbind returned: in flight
+			}
+			if o.at == unboundAt {
+				// same instant as the Unbind: a request queued before it (a PLI forced by the Bind that preceded
+				// the Unbind at this very instant) is in flight as well
+				continue
 			}
 			if o.gid != 0 && names(o.pkts, ssrc) {
 				// application-written RTCP passes through untouched
@@ -223,10 +235,10 @@ func c11Oracle(e *Env, rg *Rig) {
 		}
 	}
 	for s, st := range cfg.Local {
-		check(st.SSRC, rg.unboundL[s], 0, "Local")
+		check(st.SSRC, rg.unboundL[s], 0, rg.unboundAtL[s], "Local")
 	}
 	for s, st := range cfg.Remote {
-		check(st.SSRC, rg.unboundR[s], 0, "Remote")
+		check(st.SSRC, rg.unboundR[s], 0, rg.unboundAtR[s], "Remote")
 	}
 }
 
